@@ -79,6 +79,8 @@ def build_single(kind, env, ctx, nxt):
         e = VC(env, RATE, {0: 1, 1: 2})
     elif kind == "drr":
         e = DRR(env, RATE, {0: 1, 1: 2})
+    elif kind == "drrB":
+        e = DRR(env, 8000, {0: 1, 1: 2})
     elif kind == "rr":
         e = RR(env, RATE, [0, 1])
     elif kind == "wrr":
@@ -189,7 +191,10 @@ def build(cfg, env, ctx):
     if shape == "fswitch":
         st = Stage("FairPacketSwitch(%s)" % cfg["server"])
         table = {0: 1, 1: 2}
-        sw = FairPacketSwitch(env, 2, RATE, 3, table, cfg["server"], "fsw")
+        if cfg.get("classmap"):
+            sw = FairPacketSwitch(env, 2, RATE, 3, {0: 2}, cfg["server"], "fsw", flow2class=lambda f: 0)
+        else:
+            sw = FairPacketSwitch(env, 2, RATE, 3, table, cfg["server"], "fsw")
         fib = {int(k): v for k, v in cfg["fib"]}
         sw.demux.fib = fib
         for i, p in enumerate(sw.ports):
@@ -256,6 +261,8 @@ def plan(tier, seed):
         for b in SINGLE:
             cfgs.append(dict(shape="chain", a=a, b=b, N=n1, gaps=["S", 1, 2], flows=[0, 1], sizes=[1, 2] if not quick else [2]))
     cfgs.append(dict(shape="chain", a="wireL", b="wireL", N=n1, gaps=["S", 1], flows=[0, 1], sizes=[1]))
+    # two deficit schedulers in a row, packets larger than a quantum (both park head-of-line packets)
+    cfgs.append(dict(shape="chain", a="drrB", b="drrB", N=n1 + 1, gaps=["S", 1], flows=[0, 1], sizes=[2000, 3000]))
     cfgs.append(dict(shape="chain", a="wireL", b="portB", N=n1, gaps=["S", 1], flows=[0, 1], sizes=[2]))
     for nouts in (0, 1, 2):
         for dflt in (0, 1):
@@ -270,6 +277,9 @@ def plan(tier, seed):
     for server in ("SP", "WFQ", "DRR", "VirtualClock"):
         for fib in ([[0, 0], [1, 0]], [[0, 0], [1, 1]]):
             cfgs.append(dict(shape="fswitch", server=server, fib=fib, N=n1 + 1, gaps=["S", 1, 2], flows=[0, 1, 2], sizes=[1, 2]))
+        # all flows of a port share one class (flows 5 and 6 exist only through the class map)
+        if server != "SP":
+            cfgs.append(dict(shape="fswitch", server=server, fib=[[5, 0], [6, 0]], N=n1 + 1, gaps=["S", 1], flows=[5, 6, 2], sizes=[1, 2], classmap=1))
     for conn in ([1, 1], [1, 0], [0, 1], [0, 0]):
         cfgs.append(dict(shape="splitter", n=2, conn=conn, N=n1, gaps=["S", 1], flows=[0, 1], sizes=[1]))
     for conn in ([1, 1, 1], [0, 1, 1], [1, 0, 1], [0, 0, 0]):
